@@ -213,6 +213,15 @@ func (spec *Spec) ParsePatterns(ctx context.Context) error {
 			b.Pattern = x
 		}
 	}
+
+	// The patterns are now plain data.  Remember that, so that
+	// parsing (or compiling) again, or reloading this spec after it
+	// has been serialized, does not parse them a second time (which
+	// fails for a pattern that is a string, or changes it).
+	if spec.PatternSyntax != "" {
+		spec.PatternSyntax = "none"
+	}
+
 	return nil
 }
 
@@ -287,15 +296,7 @@ func (spec *Spec) Compile(ctx context.Context, interpreters Interpreters, force 
 		}
 
 		for _, b := range n.Branches.Branches {
-			x, err := spec.PatternParser(spec.PatternSyntax, b.Pattern)
-			if err != nil {
-				return err
-			}
-			// ToDo: Remove
-			if x, err = Canonicalize(x); err != nil {
-				return err
-			}
-			b.Pattern = x
+			// (ParsePatterns, above, has parsed the pattern.)
 			if b.GuardSource != nil && (force || b.Guard == nil) {
 				guard, err := b.GuardSource.Compile(ctx, interpreters)
 				if err != nil {
